@@ -372,6 +372,26 @@ class KindEval:
                 if func.id in ("sorted", "reversed") and leaks(inner):
                     self.shape_issues.append((meth, call, f"{func.id}() reorders the raw result"))
                 return LIST(inner[1]) if inner[0] in ("list", "iter") else inner
+            if func.id == "zip" and call.args:
+                elems = []
+                roots = set()
+                leaking = False
+                for a in call.args:
+                    k = self.kind(meth, a, env)
+                    leaking = leaking or bool(leaks(k))
+                    names = [n.id for n in ast.walk(a) if isinstance(n, ast.Name)]
+                    roots.add(names[0] if names else norm(a))
+                if leaking and len(roots) > 1:
+                    # pairing parts of the raw result with another sequence by position replaces the association the
+                    # agent sent (keys of the request with values of the response, ...)
+                    self.shape_issues.append((meth, call, "zip() pairs the raw result with another sequence by position"))
+                for a in call.args:
+                    k = self.kind(meth, a, env)
+                    elems.append(k[1] if k[0] in ("list", "iter") else (k[1] if k[0] == "dict" else (UNKNOWN if leaks(k) else PY)))
+                return ITER(TUPLE(*elems))
+            if func.id == "enumerate" and call.args:
+                k = self.kind(meth, call.args[0], env)
+                return ITER(TUPLE(PY, k[1] if k[0] in ("list", "iter") else (UNKNOWN if leaks(k) else PY)))
             if func.id in ("dict", "OrderedDict") :
                 if not call.args:
                     return DICT(STR, PY)
@@ -435,8 +455,12 @@ class KindEval:
                 return RAWVAL
             if func.attr in ("lstrip", "rstrip", "strip", "encode", "decode", "format", "join", "split") and not leaks(recv):
                 return PY
-            if func.attr == "get" and recv[0] == "dict":
-                return recv[2]
+            if func.attr in ("get", "pop", "setdefault") and recv[0] == "dict":
+                # the fallback given by the caller is a possible result too
+                out = recv[2]
+                for extra in call.args[1:]:
+                    out = join(out, self.kind(meth, extra, env))
+                return out
         return UNKNOWN
 
 
